@@ -19,6 +19,22 @@ func init() { core.Register(area{}) }
 
 func (area) Name() string { return "mdmerge" }
 
+// scannerTolerant: does the merger of the tree under test keep the containers behind a zero-length
+// series bucket? (measured once per run on the F2 witness blocks; when it does, the random
+// generators also produce zero-length entries in single-field blocks)
+var scannerTolerant bool
+
+// failRemap lets a witness case report the generic oracle failures of its known shape under the
+// recorded finding's stable key.
+var failRemap func(key string, series uint32) string
+
+func failSeries(c *core.Ctx, key string, series uint32, desc string) {
+	if failRemap != nil {
+		key = failRemap(key, series)
+	}
+	c.Fail(key, desc)
+}
+
 // field type codes of series/field/type.go
 const (
 	tySum, tyMin, tyMax, tyLast, tyHist, tyFirst = 1, 2, 3, 4, 5, 6
@@ -150,7 +166,7 @@ func genBlock(r *rand.Rand, sc schema, pool []uint32, sp slotPlan, mode int) *Bl
 		e := SeriesEntry{ID: pool[i], Fields: map[int]map[int]int64{}}
 		for _, f := range b.Fields {
 			c := r.Intn(10)
-			if c == 0 && len(b.Fields) > 1 {
+			if c == 0 && (len(b.Fields) > 1 || scannerTolerant) {
 				// FlushField(nil): memdb does this for a field the series has no page for. With a
 				// single field the series entry would be zero bytes long, which a memory database
 				// never flushes (a series in the flush set wrote that field); see design note.
@@ -242,6 +258,44 @@ func (area) runMergeCase(c *core.Ctx, r *rand.Rand) {
 	}
 }
 
+// mergeOp runs the real merger on the blocks (in order), mirrors it as a `merge` op and checks it.
+func mergeOp(c *core.Ctx, blocks []*Block) {
+	var datas [][]byte
+	var words []string
+	for _, b := range blocks {
+		d, err := buildBlockBytes(7, b)
+		if err != nil || len(d) == 0 {
+			c.Fail("harness-build-block", fmt.Sprintf("%v %s", err, b.String()))
+			return
+		}
+		datas = append(datas, d)
+		words = append(words, b.String())
+	}
+	var merged *Block
+	c.Guard("merge "+strings.Join(words, " "), func() string {
+		nop := kv.NewNopFlusher()
+		m, err := metricsdata.NewMerger(nop)
+		if err != nil {
+			return "err new-merger"
+		}
+		if err := m.Merge(7, datas); err != nil {
+			failSeries(c, "merge-error", 0, err.Error())
+			return "err merge"
+		}
+		mb, err := decodeBlock(append([]byte(nil), nop.Bytes()...))
+		if err != nil {
+			c.Fail("decode-merged", err.Error())
+			return "err decode"
+		}
+		merged = mb
+		return "ok " + mb.Canonical().String()
+	})
+	if merged != nil {
+		checkMerged(c, blocks, merged)
+		c.NonTrivial()
+	}
+}
+
 // checkMerged is C03's statement on one real merge: per cell exact aggregate (sum/min/max/
 // histogram) or membership (first/last), nothing appears or disappears.
 func checkMerged(c *core.Ctx, inputs []*Block, out *Block) {
@@ -322,13 +376,13 @@ func checkMerged(c *core.Ctx, inputs []*Block, out *Block) {
 	for k, vs := range contrib {
 		g, ok := got[k]
 		if !ok {
-			c.Fail("merge-slot-disappears", fmt.Sprintf("cell %v contributed %v, absent after merge", k, vs))
+			failSeries(c, "merge-slot-disappears", k.s, fmt.Sprintf("cell %v contributed %v, absent after merge", k, vs))
 			continue
 		}
 		ty := ftype[k.f]
 		if orderFree(ty) {
 			if w := combine(ty, vs); w != g {
-				c.Fail("merge-value", fmt.Sprintf("cell %v type %d: merged %d, aggregate of %v is %d", k, ty, g, vs, w))
+				failSeries(c, "merge-value", k.s, fmt.Sprintf("cell %v type %d: merged %d, aggregate of %v is %d", k, ty, g, vs, w))
 			}
 		} else {
 			// the direct call fixes the input order: first = first contributed, last = last contributed
@@ -361,6 +415,8 @@ type famCase struct {
 	fields  map[uint32]map[int]int
 	maxSlot int
 	allFree bool // no first/last field anywhere
+	// failKey: the stable key under which a compaction failure of THIS case's known shape is reported
+	failKey string
 }
 
 func showFiles(fs []FileInfo) string {
@@ -473,6 +529,7 @@ func (fc *famCase) drySizes() (map[uint32]int, []uint32, error) {
 	snap := fc.env.fam.GetSnapshot()
 	defer snap.Close()
 	sizes := map[uint32]int{}
+	var mergeErr error
 	for _, k := range keys {
 		var datas [][]byte
 		for _, f := range picked {
@@ -501,11 +558,16 @@ func (fc *famCase) drySizes() (map[uint32]int, []uint32, error) {
 			return nil, nil, err
 		}
 		if err := m.Merge(k, datas); err != nil {
-			return nil, nil, err
+			// the real compaction will fail on this key too; the size is irrelevant then
+			if mergeErr == nil {
+				mergeErr = err
+			}
+			sizes[k] = 1
+			continue
 		}
 		sizes[k] = len(nop.Bytes())
 	}
-	return sizes, keys, nil
+	return sizes, keys, mergeErr
 }
 
 // compact runs one compaction; maxMode: "tiny" (family option MaxFileSize = 1, set at creation),
@@ -514,7 +576,7 @@ func (fc *famCase) drySizes() (map[uint32]int, []uint32, error) {
 func (fc *famCase) compact(r *rand.Rand, threshold int, maxMode string, optMax uint32) (failed bool) {
 	c := fc.c
 	sizes, keys, err := fc.drySizes()
-	if err != nil {
+	if err != nil && (fc.failKey == "" || sizes == nil) {
 		c.Fail("harness-dry-run", err.Error())
 		return true
 	}
@@ -565,6 +627,8 @@ func (fc *famCase) compact(r *rand.Rand, threshold int, maxMode string, optMax u
 		if closedEarly {
 			c.Fail("compact-output-split-stale-stream-writer", what)
 			c.Branch("fam/compact-fail-split")
+		} else if fc.failKey != "" {
+			c.Fail(fc.failKey, what)
 		} else {
 			c.Fail("compact-failed", what)
 		}
@@ -619,13 +683,13 @@ func (fc *famCase) view(metric uint32) {
 		for k, vs := range want {
 			g, ok := got[Key{k.s, k.f, k.t}]
 			if !ok {
-				c.Fail("slot-disappears", fmt.Sprintf("metric %d cell %v: flushed %v, reader sees nothing", metric, k, vs))
+				failSeries(c, "slot-disappears", k.s, fmt.Sprintf("metric %d cell %v: flushed %v, reader sees nothing", metric, k, vs))
 				continue
 			}
 			ty := fc.fields[metric][k.f]
 			if orderFree(ty) {
 				if w := combine(ty, vs); w != g {
-					c.Fail("value-changed", fmt.Sprintf("metric %d cell %v type %d: reader sees %d, aggregate of flushed %v is %d", metric, k, ty, g, vs, w))
+					failSeries(c, "value-changed", k.s, fmt.Sprintf("metric %d cell %v type %d: reader sees %d, aggregate of flushed %v is %d", metric, k, ty, g, vs, w))
 				}
 			} else {
 				found := false
@@ -838,7 +902,191 @@ func (a area) witnessSplit(c *core.Ctx) {
 	c.NonTrivial()
 }
 
+func sumBlock(start, end int, series map[uint32]map[int]int64) *Block {
+	b := &Block{Fields: []FieldMeta{{1, tySum}}, Start: start, End: end}
+	var ids []uint32
+	for id := range series {
+		ids = append(ids, id)
+	}
+	sort.Slice(ids, func(i, j int) bool { return ids[i] < ids[j] })
+	for _, id := range ids {
+		e := SeriesEntry{ID: id, Fields: map[int]map[int]int64{}}
+		if series[id] != nil {
+			e.Fields[1] = series[id]
+		}
+		b.Series = append(b.Series, e)
+	}
+	return b
+}
+
+// scenarioL1Twice: a level-1 file overlapped by several level-0 files must be merged once.
+func (a area) scenarioL1Twice(c *core.Ctx) {
+	fc := newFamCase(c, 0, 0)
+	if fc == nil {
+		return
+	}
+	defer fc.env.close()
+	mk := func(v int64) []Entry {
+		return []Entry{
+			{Metric: 1, Block: sumBlock(5, 8, map[uint32]map[int]int64{3: {5: v, 7: v + 1}})},
+			{Metric: 4, Block: sumBlock(5, 8, map[uint32]map[int]int64{65537: {6: 2 * v}})},
+		}
+	}
+	fc.flush(mk(1), true)
+	fc.flush(mk(10), true)
+	fc.compact(c.Rng(1), 0, "huge", 0)
+	fc.viewAll()
+	for round := 0; round < 2; round++ {
+		for i := 0; i < 3; i++ {
+			fc.flush(mk(int64(100*(round+1)+i)), true)
+		}
+		fc.compact(c.Rng(1), 0, "huge", 0)
+		fc.viewAll()
+	}
+	c.NonTrivial()
+}
+
+// scenarioScanner: inputs without series in the lowest container of the merged id set and with
+// series in two or more higher containers (the scanner must step one container at a time).
+func (a area) scenarioScanner(c *core.Ctx) {
+	A := sumBlock(2, 6, map[uint32]map[int]int64{5: {2: 1}, 65541: {3: 2}, 131077: {4: 3}, 262149: {5: 4}})
+	B := sumBlock(2, 6, map[uint32]map[int]int64{65540: {3: 10}, 65541: {3: 20}, 196613: {4: 30}, 262149: {5: 40}})
+	C := sumBlock(2, 6, map[uint32]map[int]int64{131077: {4: 100}, 262150: {6: 200}})
+	mergeOp(c, []*Block{A, B, C})
+	mergeOp(c, []*Block{C, B})
+	mergeOp(c, []*Block{B, A})
+	fc := newFamCase(c, 0, 0)
+	if fc == nil {
+		return
+	}
+	defer fc.env.close()
+	for _, b := range []*Block{A, B, C} {
+		fc.flush([]Entry{{Metric: 9, Block: b}}, true)
+	}
+	fc.compact(c.Rng(2), 0, "huge", 0)
+	fc.viewAll()
+}
+
+// scenarioNested: nested slot ranges, the narrow block first.
+func (a area) scenarioNested(c *core.Ctx) {
+	n := sumBlock(10, 20, map[uint32]map[int]int64{1: {10: 1, 20: 2}})
+	w := sumBlock(5, 30, map[uint32]map[int]int64{1: {5: 10, 15: 20, 25: 30, 30: 40}})
+	x := sumBlock(12, 14, map[uint32]map[int]int64{1: {13: 100}})
+	mergeOp(c, []*Block{n, w})
+	mergeOp(c, []*Block{x, n, w})
+	mergeOp(c, []*Block{w, n})
+	fc := newFamCase(c, 0, 0)
+	if fc == nil {
+		return
+	}
+	defer fc.env.close()
+	// one file each; whatever order the merged iterator delivers them in, the union must hold
+	for _, b := range []*Block{n, w, x} {
+		fc.flush([]Entry{{Metric: 2, Block: b}}, true)
+	}
+	fc.compact(c.Rng(3), 0, "huge", 0)
+	fc.viewAll()
+}
+
+// F2 witness blocks (Props/C03.lean Neg.dA, dB, dC): single-field blocks as a memory database
+// flushes them when some series of the metric did not write in the flushed window.
+func deadA() *Block {
+	return sumBlock(5, 6, map[uint32]map[int]int64{0: {5: 3}, 65536: nil, 131072: {5: 7}})
+}
+func deadB() *Block {
+	return sumBlock(5, 6, map[uint32]map[int]int64{0: {5: 10}, 65536: {5: 20}, 131072: {5: 30}})
+}
+func deadC() *Block {
+	return sumBlock(5, 6, map[uint32]map[int]int64{0: nil, 65536: {5: 7}})
+}
+
+const (
+	keyDeadMiddle = "merge-empty-series-bucket-drops-later-containers"
+	keyDeadFirst  = "merge-empty-first-series-bucket-fails"
+)
+
+// probeTolerance measures scannerTolerant on the F2a witness.
+func probeTolerance() bool {
+	var datas [][]byte
+	for _, b := range []*Block{deadA(), deadB()} {
+		d, err := buildBlockBytes(7, b)
+		if err != nil {
+			return false
+		}
+		datas = append(datas, d)
+	}
+	ok := false
+	func() {
+		defer func() { _ = recover() }()
+		nop := kv.NewNopFlusher()
+		m, err := metricsdata.NewMerger(nop)
+		if err != nil || m.Merge(7, datas) != nil {
+			return
+		}
+		mb, err := decodeBlock(append([]byte(nil), nop.Bytes()...))
+		if err != nil {
+			return
+		}
+		for _, s := range mb.Series {
+			if s.ID == 131072 && s.Fields[1][5] == 37 {
+				ok = true
+			}
+		}
+	}()
+	return ok
+}
+
+// witnessDeadMiddle replays finding F2a: the values behind a zero-length series bucket are lost by
+// the merge (direct merger call and real family compaction).
+func (a area) witnessDeadMiddle(c *core.Ctx) {
+	failRemap = func(key string, series uint32) string {
+		if series >= 131072 && (key == "merge-slot-disappears" || key == "merge-value" || key == "slot-disappears" || key == "value-changed") {
+			return keyDeadMiddle
+		}
+		return key
+	}
+	defer func() { failRemap = nil }()
+	mergeOp(c, []*Block{deadA(), deadB()})
+	fc := newFamCase(c, 0, 0)
+	if fc == nil {
+		return
+	}
+	defer fc.env.close()
+	fc.flush([]Entry{{Metric: 1, Block: deadA()}}, true)
+	fc.flush([]Entry{{Metric: 1, Block: deadB()}}, true)
+	fc.viewAll()
+	fc.compact(c.Rng(4), 0, "huge", 0)
+	fc.viewAll()
+	c.NonTrivial()
+}
+
+// witnessDeadFirst replays finding F2b: a block whose first container is a zero-length bucket makes
+// Merge fail, the compaction never completes.
+func (a area) witnessDeadFirst(c *core.Ctx) {
+	failRemap = func(key string, series uint32) string {
+		if key == "merge-error" {
+			return keyDeadFirst
+		}
+		return key
+	}
+	defer func() { failRemap = nil }()
+	mergeOp(c, []*Block{deadC(), deadB()})
+	fc := newFamCase(c, 0, 0)
+	if fc == nil {
+		return
+	}
+	defer fc.env.close()
+	fc.failKey = keyDeadFirst
+	fc.flush([]Entry{{Metric: 1, Block: deadC()}}, true)
+	fc.flush([]Entry{{Metric: 1, Block: deadB()}}, true)
+	fc.viewAll()
+	fc.compact(c.Rng(5), 0, "huge", 0)
+	fc.viewAll()
+	c.NonTrivial()
+}
+
 func (a area) Run(c *core.Ctx) error {
+	scannerTolerant = probeTolerance()
 	for i := 0; i < c.N; i++ {
 		if !c.Want(i) {
 			continue
@@ -848,6 +1096,18 @@ func (a area) Run(c *core.Ctx) error {
 		switch {
 		case i == 0:
 			a.witnessSplit(c)
+		case i == 1:
+			a.scenarioL1Twice(c)
+		case i == 2:
+			a.scenarioScanner(c)
+		case i == 3:
+			a.scenarioNested(c)
+		case i == 4:
+			a.witnessDeadMiddle(c)
+		case i == 5:
+			a.witnessDeadFirst(c)
+		case i == 6 && c.Tier == "thorough" && c.Seed%3 == 1:
+			a.realEngineWitness(c)
 		case i%2 == 1:
 			a.runMergeCase(c, r)
 		default:
